@@ -186,6 +186,45 @@ theorem k_execOne {b x} (v s) (hx : R b x) : R b (execOne v s x).2 := by
       | exact h.k_execCB _ (h.k_fetchByte _ _ hx)
       | exact h.k_exec _ _ _ _ (h.k_fetchByte _ _ hx)
 
+/-- every branch of `execOne` starts with a 4-T opcode fetch at PC; everything after that fetch
+stays inside the preorder -/
+theorem execOne_after_fetch (v : Variant) (s : Cpu) (b : β) :
+    ∃ s', R (fetchByte 4 s' b).2.2 (execOne v s b).2 := by
+  unfold execOne
+  split
+  · refine ⟨{ s with activePrefix := .none }, ?_⟩
+    simp only [afterIndexPrefix]
+    split
+    all_goals first
+      | exact h.refl _
+      | exact h.k_execIdxCB _ _ (h.refl _)
+      | exact h.k_exec _ _ _ _ (h.refl _)
+  · refine ⟨{ s with activePrefix := .none }, ?_⟩
+    simp only [afterIndexPrefix]
+    split
+    all_goals first
+      | exact h.refl _
+      | exact h.k_execIdxCB _ _ (h.refl _)
+      | exact h.k_exec _ _ _ _ (h.refl _)
+  · refine ⟨{ s with activePrefix := .none }, ?_⟩
+    simp only [afterEDPrefix]
+    exact h.k_execED _ _ (h.refl _)
+  · refine ⟨stepQ { s with activePrefix := .none }, ?_⟩
+    simp only [execCB]
+    repeat' split
+    all_goals (try simp only [])
+    all_goals first
+      | exact h.k_cbMem _ _ _ _ (h.refl _)
+      | exact h.refl _
+  · refine ⟨{ s with r := incR s.r }, ?_⟩
+    simp only []
+    split
+    all_goals first
+      | exact h.k_afterIndexPrefix _ _ _ (h.refl _)
+      | exact h.k_afterEDPrefix _ (h.refl _)
+      | exact h.k_execCB _ (h.refl _)
+      | exact h.k_exec _ _ _ _ (h.refl _)
+
 /-- **`emulate` stays inside every bus-closed preorder.** -/
 theorem emulate (v : Variant) (s : Cpu) (b : β) : R b (emulate v (s, b)).2 := by
   simp only [Z80.emulate]
